@@ -130,7 +130,7 @@ void one_case(Ctx &c) {
       s.api_begin(); for (int g = 0; g < 64 && s.timers_used() < (int)s.ntmr; g++) { int16_t id = COTmrCreate(&s.node->Tmr, 400000000u, 0, nop_cb, nullptr); if (id < 0) break; tight.push_back(id); } s.api_end("COTmrCreate");
       CHECK(c, s.timers_used() == (int)s.ntmr, "harness", "could not fill the timer pool"); c.cls("transfer-with-no-spare-timer-slot");
     }
-    uint32_t off = 0, step = 0; int tgl = 0; long lastreq = s.tick; bool finished = false, conforming = true, ended_by_stale = false; uint32_t expcode = 0; bool stale_t = c.t.chance(90);
+    uint32_t off = 0, step = 0; int tgl = 0; long lastreq = s.tick; bool finished = false, conforming = true, ended_by_stale = false, reset_during = false; uint32_t expcode = 0; bool stale_t = c.t.chance(90);
     for (int guard = 0; !finished; guard++) {
       CHECK(c, guard < 6000 + (int)(size / 3), "progress", "transfer makes no progress");
       if (cb.count > 0) { finished = true; break; }
@@ -189,7 +189,15 @@ void one_case(Ctx &c) {
       if (!respond) {   // the server went silent: the transfer ends at exactly its own timeout
         // mode nmt-change-while-waiting: the NMT master stops the node, sends it to PRE-OPERATIONAL or starts it while the client waits (derived from the
         // payload seed: no extra tape choice); the statement ties callback and abort frame to the timeout alone
-        uint8_t ncs = 0; if (c.param == 2) { static const uint8_t CS[3] = {2, 128, 1}; ncs = CS[SplitMix(0x57A7u ^ pseed).next() % 3]; s.rx(Frame::mk(0, 2, {ncs, 0})); s.clear_tx(); VLOG(c, "  NMT command %u while the client waits", ncs); c.cls(ncs == 2 ? "node-stopped-while-the-client-waits" : "nmt-state-changed-while-the-client-waits"); }
+        uint8_t ncs = 0; if (c.param == 2) { static const uint8_t CS[5] = {2, 128, 1, 130, 129}; ncs = CS[SplitMix(0x57A7u ^ pseed).next() % 5]; if ((ncs == 129 || ncs == 130) && (oth.open || inter_t || ch.armed)) ncs = 2; }   // (the reset only while nothing else of the client side is in flight)
+        if (ncs == 129 || ncs == 130) {   // an NMT reset gives the transfer up at once: exactly one callback, and not with code 0 - the server never completed the transfer
+          s.clear_tx(); s.rx(Frame::mk(0, 2, {ncs, 0})); VLOG(c, "  NMT reset (%u) while the client waits -> %d callback(s), code %08X", ncs, cb.count, cb.code); c.cls("nmt-reset-while-the-client-waits");
+          CHECK(c, cb.count == 1, "exactly-one-callback", "an NMT reset while client %d waited for its server invoked the completion callback %d time(s)", n, cb.count);
+          CHECK(c, cb.code != 0, "code-0-only-after-completion", "an NMT reset while client %d waited for its server completed the transfer with code 0 although the server never answered", n);
+          for (auto &t : s.tx) CHECK(c, t.id == 0x700u + s.nodeid || t.id == txid[n], "client-frames", "the NMT reset made the node transmit %s", t.str().c_str());
+          s.clear_tx(); expcode = cb.code; finished = true; reset_during = true; break;
+        }
+        if (ncs) { s.rx(Frame::mk(0, 2, {ncs, 0})); s.clear_tx(); VLOG(c, "  NMT command %u while the client waits", ncs); c.cls(ncs == 2 ? "node-stopped-while-the-client-waits" : "nmt-state-changed-while-the-client-waits"); }
         long due = lastreq + tmo;
         while (s.tick < due - 1) { tick(); CHECK(c, cb.count == 0 && s.tx.empty(), "timeout-exact", "transfer ended at tick %ld, its timeout of %d ms (armed at tick %ld) ends at tick %ld", s.tick, tmo, lastreq, due); }
         tick();
@@ -315,7 +323,7 @@ Registrar reg(Prop{
     "In a fifth of the transfers the application asks for its next transfer from inside the completion callback: refused (busy) or accepted - then that transfer has to complete exactly once with the server's bytes. "
     "In a quarter of the undisturbed transfers application timers occupy every remaining slot of the timer pool while the transfer runs (it needs no second slot at any moment). In a third of the configurations a request is made with the timer pool exhausted by application timers: accepted (and then completed normally) or refused - then the client must be usable again as soon as a slot is free. "
     "user buffers are exact-size heap blocks (ASan red zones); download buffers unmodified (conforming servers); timer-pool occupancy after completion equals the one before; client idle; no callback or frame during the idle gap or on a late server frame. For malformed servers only exactly-once (by the timeout at the latest), memory safety and nothing-left-behind are asserted. "
-    "Mode nmt-change-while-waiting: when the server goes silent the NMT master stops the node, sends it to PRE-OPERATIONAL or starts it while the client waits: one callback with 0504 0000h and the abort frame at exactly the timeout all the same. "
+    "Mode nmt-change-while-waiting: when the server goes silent the NMT master stops the node, sends it to PRE-OPERATIONAL or starts it while the client waits: one callback with 0504 0000h and the abort frame at exactly the timeout all the same - or it resets the node (communication / node), which gives the transfer up at once: one callback, never with code 0. "
     "Mode large-transfer: the first transfer of the case moves 65529..66935 or 131065..131080 bytes (a firmware image) under the same oracle. "
     "Non-trivial: >= 2 transfers in the case or a segmented transfer. Distinct = distinct decoded choice sequence.",
     {Mode{"random", one_case, false, 1200000, 15000000, 0, 0, 400, 1500},
